@@ -49,8 +49,8 @@ class NotificationCenter():
     @classmethod
     def register_one_shot(cls, obj, msg, listener, action):
         def one_shot_action(*args):
-            action(*args)
             cls.unregister(obj, msg, listener)
+            action(*args)
         cls.register(obj, msg, listener, one_shot_action)
 
     @classmethod
